@@ -76,10 +76,10 @@ let () =
     match list s with
     | [w; p; c; f] -> of_opt of_nat (M.c17_fault_index (sched_ w) (project_ p) (config_ c) (opt_ fname_ f))
     | _ -> failwith "c17-index: bad case");
-  Registry.register "kf" (fun s ->
+  Registry.register "record" (fun s ->
     match list s with
-    | [t; m] -> of_bool (M.c17_kf_trunc (bool_ t) (bool_ m))
-    | _ -> failwith "c17-kf: bad case");
+    | [r; b] -> of_bool (M.c17_record_ok (result_ r) (bool_ b))
+    | _ -> failwith "c17-record: bad case");
   Registry.register "oracle" (fun s ->
     match list s with
     | [b; rf; v; cf; rr; cr; fr] ->
